@@ -329,6 +329,22 @@ class SMUserList(UserList, ABC):
             raise ValueError("can't insert a multivalued element - must have len() == 1")
         self.data[i] = value.A
 
+    # collections.UserList implements + and * as list concatenation and repetition.  For these classes
+    # the operators are arithmetic (or undefined), so the inherited list versions are disabled: a subclass
+    # that supports an operator defines it, otherwise the operation is a TypeError instead of an object
+    # holding the other operand's elements.
+    def __add__(self, other):
+        raise TypeError("unsupported operand type(s) for +: '{}' and '{}'".format(type(self).__name__, type(other).__name__))
+
+    def __radd__(self, other):
+        raise TypeError("unsupported operand type(s) for +: '{}' and '{}'".format(type(other).__name__, type(self).__name__))
+
+    def __mul__(self, other):
+        raise TypeError("unsupported operand type(s) for *: '{}' and '{}'".format(type(self).__name__, type(other).__name__))
+
+    def __rmul__(self, other):
+        raise TypeError("unsupported operand type(s) for *: '{}' and '{}'".format(type(other).__name__, type(self).__name__))
+
     # flag these binary operators as being not supported
     def __lt__(self, other):
         return NotImplementedError
